@@ -30,6 +30,8 @@ Check(t) ==
          IF bad # {} THEN <<"membership", "", nj>>
          ELSE IF t.exc2 # "" THEN <<"contains-failed(parameters as columns):" \o t.exc2, "", nj>>
          ELSE IF t.bits2 # <<>> /\ (~t.shape2_ok \/ t.bits2 # t.bits) THEN <<"membership(parameters as columns)", "", nj>>
+         ELSE IF t.exc3 # "" THEN <<"contains-failed(product space x1*x2, permuted columns):" \o t.exc3, "", nj>>
+         ELSE IF t.bits3 # <<>> /\ (~t.shape3_ok \/ t.bits3 # t.bits) THEN <<"membership(product space x1*x2, permuted columns)", "", nj>>
          ELSE IF ~t.nv_ok THEN <<"necessary-variables", "", nj>>
          \* boundary clauses only for expressions that denote a set of positive measure on the query lattice
          ELSE IF t.bd = "none" \/ Cardinality({i \in J : t.bits[i] = 1}) < 4 THEN <<"ok", "", nj>>
